@@ -34,7 +34,7 @@ type c02 struct {
 func checkC02(c *Ctx) {
 	c.Rule("C02.R1", "model evaluation of Point.Within with the two segment predicates — the package's (Point, Point, Point) bool functions — replaced by oracles: with every answer false, each predicate is asked about every segment of every ring exactly once, the closing pair (last, first) included, for polygons and multi-polygons of several rings, open and closed, and for rings whose box the point only touches")
 	c.Rule("C02.R2", "model evaluation, same model: one predicate answers 'on the segment' (OnEdge at once, whatever crossings are reported elsewhere), the other counts crossings, and the result is Inside exactly for an odd number of crossings summed over all rings and member polygons")
-	c.Rule("C02.R3", "the per-ring pre-filter is the closed box test of the ring's own bounds: a point inside or on the ring's box is never skipped")
+	c.Rule("C02.R3", "model evaluation, same model: a ring is never skipped when the point is inside or on its box — with the query point on the left or top border of a ring's box, or inside it only thanks to the last vertex of an unclosed ring, every segment is asked and the result is that of the full scan")
 	c.Rule("C02.R4", "model evaluation of MultiPoint/LineString/MultiLineString/Polygon.Within with the per-vertex classification replaced by an oracle: Outside exactly when some vertex or member is classified Outside, every vertex and member consulted, the fall-through result not Outside")
 	c.Rule("C02.R5", "whenever a segment predicate returns a definite value using comparisons alone, that value is the one order-level geometry dictates (all orderings of {p,a,b} per axis, exhaustive)")
 	a := &c02{c: c, info: c.P.Pkg("geom").TypesInfo}
@@ -42,7 +42,6 @@ func checkC02(c *Ctx) {
 		return
 	}
 	c02model(c, a)
-	a.r3prefilter()
 	a.r5exits()
 	c.Floor("C02.R1", 1)
 	c.Floor("C02.R2", 1)
@@ -97,10 +96,6 @@ func (a *c02) anchors() bool {
 		}
 		return true
 	})
-	if a.classify == nil {
-		c.Unk("C02.R1", c.P.FuncName(a.polyal), c.P.Decl(a.polyal).Pos(), "per-polygon classifier not found")
-		return false
-	}
 	return true
 }
 
@@ -143,120 +138,11 @@ func constInt64Obj(o types.Object) (int64, bool) {
 	return constInt64(cst)
 }
 
-// prefilterCall: cond is !B.Overlaps(box-of-point); returns the call.
-func (a *c02) prefilterCall(cond ast.Expr) *ast.CallExpr {
-	u, ok := unparen(cond).(*ast.UnaryExpr)
-	if !ok || u.Op != token.NOT {
-		return nil
-	}
-	call, ok := unparen(u.X).(*ast.CallExpr)
-	if !ok || len(call.Args) != 1 {
-		return nil
-	}
-	f := callee(a.info, call)
-	if f == nil || f != a.c.P.Method("geom", "Bounds", "Overlaps") {
-		return nil
-	}
-	return call
-}
-
 // ---------------------------------------------------------------- R2 polygonal
 
 var c02rbMemo = map[*types.Func]string{}
 
 // ---------------------------------------------------------------- R3
-
-func (a *c02) r3prefilter() {
-	c := a.c
-	fd := c.P.Decl(a.classify)
-	name := c.P.FuncName(a.classify) + "#prefilter"
-	params := paramVars(a.info, fd.Type)
-	pt, pg, bnds := params[0], params[1], params[2]
-	var calls []*ast.CallExpr
-	var conds []ast.Expr
-	ast.Inspect(fd.Body, func(n ast.Node) bool {
-		if is, ok := n.(*ast.IfStmt); ok {
-			if call := a.prefilterCall(is.Cond); call != nil {
-				calls = append(calls, call)
-				conds = append(conds, is.Cond)
-			}
-		}
-		return true
-	})
-	if len(calls) == 0 {
-		// no pre-filter at all is conservative
-		c.OK("C02.R3", name, fd.Pos(), "no bounding-box pre-filter: nothing is skipped")
-		return
-	}
-	sc := newFnScope(a.info, fd.Body)
-	_ = pg
-	for _, call := range calls {
-		sel := unparen(call.Fun).(*ast.SelectorExpr)
-		// receiver: bounds[i] with i the ring loop index; argument: box of the query point
-		okRecv := false
-		if ix, ok := unparen(sel.X).(*ast.IndexExpr); ok && objOf(a.info, ix.X) == bnds {
-			loops, _ := loopsAround(sc, fd.Body, call)
-			for _, l := range loops {
-				if l.Idx != nil && objOf(a.info, ix.Index) == l.Idx && l.Hi.Of != nil && objOf(a.info, l.Hi.Of) == pg {
-					okRecv = true
-				}
-			}
-		}
-		if !okRecv {
-			c.Bad("C02.R3", name, call.Pos(), "pre-filter box `%s` is not the bounds entry of the ring being tested", src(sel.X))
-			return
-		}
-		arg := unparen(call.Args[0])
-		okArg := false
-		if ac, ok := arg.(*ast.CallExpr); ok {
-			f := callee(a.info, ac)
-			if f == c.P.Func("geom", "NewBoundsPoint") && len(ac.Args) == 1 && objOf(a.info, ac.Args[0]) == pt {
-				okArg = true
-			}
-			if s2, ok := unparen(ac.Fun).(*ast.SelectorExpr); ok && s2.Sel.Name == "Bounds" && objOf(a.info, s2.X) == pt {
-				okArg = true
-			}
-		}
-		if !okArg {
-			c.Bad("C02.R3", name, call.Pos(), "pre-filter compares the ring box with `%s`, not with the degenerate box of the query point", src(arg))
-			return
-		}
-	}
-	// order-level: Overlaps(B, box(p)) ⇔ p in closed B, for every ordering of {B.Min, B.Max, p}
-	e := newC04E2(c)
-	over := c.P.Method("geom", "Bounds", "Overlaps")
-	nbp := c.P.Func("geom", "NewBoundsPoint")
-	n := 0
-	for _, ox := range weakOrderings(3) {
-		if ox[0] > ox[1] {
-			continue
-		}
-		for _, oy := range weakOrderings(3) {
-			if oy[0] > oy[1] {
-				continue
-			}
-			n++
-			pb, why := e.it.Call(nbp, nil, []oval{e.it.point(e.pt, ox[2], oy[2])}, 0)
-			if why != "" {
-				c.Unk("C02.R3", name, fd.Pos(), "NewBoundsPoint outside the fragment: %s", why)
-				return
-			}
-			res, why := e.it.Call(over, oPtr{e.mk(oBox{ox[0], oy[0], ox[1], oy[1]})}, []oval{pb[0]}, 0)
-			if why != "" {
-				c.Unk("C02.R3", name, fd.Pos(), "Overlaps outside the fragment: %s", why)
-				return
-			}
-			in := ox[0] <= ox[2] && ox[2] <= ox[1] && oy[0] <= oy[2] && oy[2] <= oy[1]
-			if got, ok := res[0].(oBool); !ok || (in && !bool(got)) {
-				c.Bad("C02.R3", name, calls[0].Pos(), "ordering box=[(r%d,r%d)-(r%d,r%d)] p=(r%d,r%d): the point is inside or on the ring's box but the pre-filter skips the ring (OnEdge on an extreme vertex/edge is lost)", ox[0], oy[0], ox[1], oy[1], ox[2], oy[2])
-				c.Evals(n)
-				return
-			}
-		}
-	}
-	c.Evals(n)
-	c.OK("C02.R3", name, calls[0].Pos(), "closed-box test of the ring's own bounds; never skips a point in or on the box (%d orderings)", n)
-}
 
 // ---------------------------------------------------------------- R4
 
